@@ -121,7 +121,11 @@ LeafAcct(n, e) ==
     [] n.f = "first_usage" -> B3(Cmp(n.op, e.first, n.n))
     [] n.f = "insertion_date" -> B3(Cmp(n.op, e.ins, n.n))
     [] n.f = "updated_at" -> B3(Cmp(n.op, e.upd, n.n))
-    [] n.f = "balance" -> IF n.k \in DOMAIN e.bal THEN B3(Cmp(n.op, e.bal[n.k], n.n)) ELSE "U"
+    \* per asset; without an asset the comparison holds if the balance in ANY asset the account holds satisfies it
+    \* (unknown for an account holding none)
+    [] n.f = "balance" -> IF n.k = "" THEN (IF DOMAIN e.bal = {} THEN "U"
+                                             ELSE B3(\E x \in DOMAIN e.bal : Cmp(n.op, e.bal[x], n.n)))
+                          ELSE IF n.k \in DOMAIN e.bal THEN B3(Cmp(n.op, e.bal[n.k], n.n)) ELSE "U"
     [] n.f = "metadata" -> MetaLeaf(n, e.meta)
 
 \* transactions: e = [id, ts, ins, upd, ref, revAt, meta, srcs, dsts] (srcs/dsts: sets of [addr, sg])
@@ -339,9 +343,13 @@ Pages(L, size) == Chunks(L, size)
 (***************************************************************************)
 IsAddrLeaf(n) == n.op \notin {"and", "or", "not", "true"} /\ n.f = "address"
 
+\* does the subtree contain an address filter THAT THE LATERAL LOOKUP APPLIES?  An $in leaf does not count: its operand
+\* is never collected, so it restricts nothing inside the lateral lookup.  (CountInAsAddressFilter = TRUE is the rule as
+\* it was before commit 55870c0 of the repository; MC_ReadsLateral refutes it: negative control.)
+CountInAsAddressFilter == FALSE
 RECURSIVE ContainsAddr(_)
 ContainsAddr(n) == IF n.op \in {"and", "or", "not"} THEN \E i \in DOMAIN n.args : ContainsAddr(n.args[i])
-                   ELSE IsAddrLeaf(n)
+                   ELSE IsAddrLeaf(n) /\ (CountInAsAddressFilter \/ n.op # "in")
 
 RECURSIVE SafeForLateral(_, _)
 SafeForLateral(n, insideNot) ==
